@@ -16,8 +16,9 @@
        ([C09_aged_fails_once_then_free]) and the NEXT funded set is paid ([C09_aged_next_set_is_paid]).
    These are existence-of-a-run (liveness under a cooperative environment) theorems, proved by symbolic execution of
    the model over an arbitrary node (arbitrary attempt records, arbitrary list of failed/complete parts).
-   PARTIAL: the schedule is one cooperative schedule, not every fair one; "no part pending" (the probe comes after the
-   history has quiesced) is a hypothesis; attempt ids are assumed fresh (they are nanosecond timestamps in the code). *)
+   PARTIAL: the schedule is one cooperative schedule, not every fair one; in the per-case theorems "no part pending" is a
+   hypothesis, which [C09_never_wedged_whatever_the_pending_parts_do] discharges by letting the pending parts resolve
+   (in any way) before the probe arrives; attempt ids are assumed fresh (they are nanosecond timestamps in the code). *)
 From Tramp Require Import Model.Base Model.Fee Model.Classify Model.Node Model.Provider Model.ProviderSys Model.Sys.
 From Tramp Require Import Proofs.SysBasics Proofs.SysShape Proofs.SysTheorems Proofs.SysReach Proofs.SysCalls Proofs.SysNode Proofs.SysSafety Proofs.SysRecover.
 
@@ -34,6 +35,20 @@ Theorem C09_never_wedged : forall c n t0 h0 a0 h (p : list N),
     (In [OResp (hid h) r_tramp_fail] (map resps (snd (run c (sys_start n t0 h0 a0) evs))) /\
      free_view (ds (nd (fst (run c (sys_start n t0 h0 a0) evs)))) /\ parts (nd (fst (run c (sys_start n t0 h0 a0) evs))) = parts n).
 Proof. exact never_wedged. Qed.
+
+(* the same without the "no part pending" hypothesis: the parts the interrupted attempt left pending resolve in ANY way
+   ([res i] is the fate of part i: failed, or complete with any preimage) before the next funded set arrives — the
+   schedule contains those resolutions explicitly — and the set is then settled (or, aged and nothing completed, failed
+   once with the record left Free) *)
+Theorem C09_never_wedged_whatever_the_pending_parts_do : forall c n t0 h0 a0 h (p : list N) (res : nat -> pstat),
+  funded c h -> mpp_ms c <> 0 -> node_ok n -> (forall i, res i <> PPend) ->
+  mem_att a0 (atts n) = false -> (forall a t g, ds n = Some (DPending a t, g) -> a0 <> a) ->
+  exists evs,
+    (exists p', In [OResp (hid h) (Resolve p')] (map resps (snd (run c (sys_start n t0 h0 a0) evs)))) \/
+    (In [OResp (hid h) r_tramp_fail] (map resps (snd (run c (sys_start n t0 h0 a0) evs))) /\
+     free_view (ds (nd (fst (run c (sys_start n t0 h0 a0) evs)))) /\
+     parts (nd (fst (run c (sys_start n t0 h0 a0) evs))) = resolve_with res 0 (parts n)).
+Proof. exact never_wedged_pending. Qed.
 
 (* the cases, each with its schedule *)
 Theorem C09_free_image_pays : forall c n t0 h0 a0 h p,
